@@ -123,3 +123,7 @@ mod tests {
         assert_eq!(&Potato(43), config.get_custom::<Potato>().unwrap());
     }
 }
+
+#[cfg(kani)]
+#[path = "/verif/kani/compile_config.rs"]
+mod kani_verif;
